@@ -209,6 +209,9 @@ impl Analyzable for Statement
 			{
 				analyzer.is_in_block = false;
 
+				// The branches of an `else if` are not else-branches themselves.
+				analyzer.is_naked_else_branch = false;
+
 				analyzer.is_naked_then_branch = true;
 				let then_branch = Box::new(then_branch.analyze(analyzer));
 				analyzer.is_naked_then_branch = false;
